@@ -257,7 +257,7 @@ func (self *Transformer) stmtVariants(node ast.AnalyzedStatement) []ast.Analyzed
 
 	// Iter-once `for` loop using ranges
 	output = append(output, ast.AnalyzedForStatement{
-		Identifier: pAst.NewSpannedIdent("_i", node.Span()),
+		Identifier: pAst.NewSpannedIdent(self.freshName("_i"), node.Span()),
 		IterExpression: ast.AnalyzedRangeLiteralExpression{
 			Start: ast.AnalyzedIntLiteralExpression{
 				Value: 0,
@@ -285,7 +285,7 @@ func (self *Transformer) stmtVariants(node ast.AnalyzedStatement) []ast.Analyzed
 
 func (self *Transformer) IterOnceWhileLoop(node ast.AnalyzedStatement) ast.AnalyzedStatement {
 	// Iter-once while-loop
-	whileLoopObfuscateIdent := "count_once"
+	whileLoopObfuscateIdent := self.freshName("count_once")
 	return ast.AnalyzedExpressionStatement{
 		Expression: ast.AnalyzedBlockExpression{
 			Block: ast.AnalyzedBlock{
